@@ -21,6 +21,9 @@ THEOREMS = [
     "IrVerif.Kernel.C01_step_any",
     "IrVerif.Kernel.C01_history",
     "IrVerif.Kernel.C01_history_from",
+    "IrVerif.Kernel.C01_node_sequence_refined",
+    "IrVerif.Kernel.C01_node_sequence_history",
+    "IrVerif.Kernel.C01_graph_calls_use_seq",
 ]
 ASSUMPTIONS = [
     "alphabet: Value(...), const_value=, Node(...) (inputs, num_outputs / outputs, graph=, name), Graph(...), "
@@ -31,8 +34,13 @@ ASSUMPTIONS = [
     "convenience.replace_all_uses_with / rename_values / replace_nodes_and_values",
     "arguments are existing objects of the right class (the model is typed); Value(producer=...), the raw "
     "Node.graph setter, underscore attributes, `.data` and list.sort()/copy() are outside the alphabet",
-    "the node sequence is modelled as a duplicate-free list with the documented move semantics (its pointer-level "
-    "refinement is C11's); Graph.sort enters the model as 'some permutation of each involved graph' (C12 decides which)",
+    "the node sequence is modelled as a duplicate-free list with the documented move semantics; "
+    "C01_node_sequence_refined instantiates it with C11's pointer-level LinkedSet model (toList after each operation = "
+    "the kernel's list function, raise flags agree); Graph.sort enters the model as 'some permutation of each "
+    "involved graph' (C12 decides which)",
+    "const tensors accept renaming, except where a refusing tensor (read-only name) is generated: only on values that "
+    "already have a non-empty name, so that Value.name= / rename_values meet it but the implicit naming paths (name "
+    "authority, initializers[key] = unnamed value) never do",
     "Python asserts used as internal consistency checks are not error points of the model; inside the mutation "
     "phase of one call the model may order primitive effects differently from the statements (no error point in between)",
     "the name authority's generated names use a bounded loop (|seen|+1 iterations suffice: C15)",
@@ -48,6 +56,7 @@ def run(ctx: Ctx) -> None:
         K.replay_ops(ctx, PROP, obj["ops"])
     scope = K.run_exhaustive(ctx, PROP, depth=ctx.pick(2, 3), reduced=not ctx.quick)
     ctx.exhaustive_scopes.append(scope)
+    ctx.exhaustive_scopes.append(K.run_after_reject(ctx, PROP, depth=ctx.pick(3, 4)))
     K.run_random(ctx, PROP, ctx.pick(2000, 40000), ctx.pick(40, 60))
 
 
